@@ -327,6 +327,13 @@ func c19Slices(n int) map[string]interface{} {
 	}
 	resliced := append([]int{}, ints...)
 	resliced = append(resliced, 777, 888)[:n]
+	if n == 0 {
+		// no elements: also the nil slices (a nil slice is an empty slice), directly and behind a pointer
+		var nilStrs []string
+		var nilAny []interface{}
+		return map[string]interface{}{"[]string": strs, "[]int": ints, "[]struct": structs, "*[]string": &strs, "array": arr.Interface(),
+			"nil []string": nilStrs, "nil []interface{}": nilAny, "*nil []string": &nilStrs}
+	}
 	return map[string]interface{}{"[]string": strs, "[]int": ints, "[]struct": structs, "[]*struct": ptrs, "*[]string": &strs, "*[]int": &ints, "array": arr.Interface(),
 		"[]int+cap": capInts, "[]string+cap": capStrs, "*[]int+cap": &resliced}
 }
@@ -495,11 +502,20 @@ type lenCase struct {
 		Ptr     int    `json:"ptr"`
 		NilBase bool   `json:"nilbase"`
 		NilPtr  bool   `json:"nilptr"`
+		Meth    bool   `json:"meth"`
 	} `json:"v"`
 	Specified bool `json:"specified"`
 	Want      int  `json:"want"`
 	Impl      int  `json:"impl"`
 }
+
+type lenStrS string
+type lenSliceS []int
+type lenMapS map[string]int
+
+func (s lenStrS) String() string   { return "a string that prints as something much longer" }
+func (s lenSliceS) String() string { return "a slice that prints as something much longer" }
+func (m lenMapS) String() string   { return "a map that prints as something much longer" }
 
 // lenValue builds the Go value an abstract LenOf value stands for.
 func lenValue(lc *lenCase) interface{} {
@@ -551,6 +567,17 @@ func lenValue(lc *lenCase) interface{} {
 		base = reflect.ValueOf(0)
 	case "struct":
 		base = reflect.ValueOf(struct{ A int }{})
+	}
+	if v.Meth {
+		// the same value as a defined type that prints itself
+		switch v.Kind {
+		case "string":
+			base = base.Convert(reflect.TypeOf(lenStrS("")))
+		case "slice":
+			base = base.Convert(reflect.TypeOf(lenSliceS(nil)))
+		case "map":
+			base = base.Convert(reflect.TypeOf(lenMapS(nil)))
+		}
 	}
 	cur := base
 	for p := 0; p < v.Ptr; p++ {
